@@ -63,6 +63,7 @@ class Sim(object):
                 faults=case.get('faults', []), umask=case.get('umask', 0o022), devs=w.get('devs'))
         K.mount_order = w.get('mount_order')
         K.unlisted = w.get('unlisted')
+        K.binds = set(w.get('binds') or ())
         for m in K.mounts:
             if not os.path.isdir(self.root + m) or os.path.islink(self.root + m):
                 raise HarnessError('mount point %r is not a directory in the world' % m)
